@@ -1,6 +1,7 @@
 import XvcIgnore.GitLemmas
 import XvcIgnore.GitMono
 import XvcIgnore.GitDir
+import XvcIgnore.Gen.GitignoreWrites
 /-!
   # C16 — Tracked data files never enter Git
 
@@ -417,6 +418,50 @@ example :
     gitIgnored (trackNewOnly "D".toList [] [x] r) ["out".toList, "model.bin".toList] false = false ∧
     gitIgnored (trackCmd "D".toList [] [x] [] r).tree ["out".toList, "model.bin".toList] false = true := by decide
 
+/-! ## the append primitive
+
+  Everything above is about `writeGroups`, whose edit of one file is `old ++ appendText …`: the theorems
+  `C16_append_only*`, `C16_lines_kept*` ASSUME that the code adds bytes at the end of the file and does
+  nothing else to it.  That assumption is a fact about how the file is opened; it is pinned here to the
+  table of write sites generated from the Rust source (Gen/GitignoreWrites.lean).  The binary-level
+  fault stream of lib/c16.py (commands under `ulimit -f`, kill at the write) and the open flags observed
+  with strace check the same thing on the implementation. -/
+
+/-- every site in file/src/common/gitignore.rs and the `.gitignore` site of `xvc init` that can change a
+    file opens it with `append(true)` and without `truncate(true)`; there is no `fs::write`,
+    `File::create`, `remove_file`, `rename`, `copy`, `set_len` on an ignore file -/
+theorem C16_gitignore_opened_append_only : ∀ s ∈ Gen.GITIGNORE_WRITE_SITES, s.kind.appendOnly = true := by decide
+
+/-- hence, whatever the site wanted to write and **at whatever byte the write stopped** (I/O error such as
+    ENOSPC / EDQUOT / EFBIG, or the process killed): the file is still there and its old content is a
+    prefix of the new one — no line of the user or of an earlier command is removed or rewritten -/
+theorem C16_faulted_write_keeps_old_bytes (s : WriteSite) (hs : s ∈ Gen.GITIGNORE_WRITE_SITES)
+    (old payload : Str) (k : Nat) :
+    ∃ new, s.kind.after old (payload.take k) = some new ∧ old <+: new := by
+  rw [WriteKind.after_of_appendOnly s.kind (C16_gitignore_opened_append_only s hs)]
+  exact ⟨_, rfl, List.prefix_append _ _⟩
+
+/-- and a complete write through such a site is exactly the edit of the model (`writeGroups`) -/
+theorem C16_complete_write_is_model_edit (s : WriteSite) (hs : s ∈ Gen.GITIGNORE_WRITE_SITES)
+    (old : Str) (lines : List Str) (date : Str) :
+    s.kind.after old (appendText old lines date) = some (old ++ appendText old lines date) :=
+  WriteKind.after_of_appendOnly s.kind (C16_gitignore_opened_append_only s hs) _ _
+
+/-- non-vacuity: the table is not empty and names a site in each of the two update functions -/
+example : Gen.GITIGNORE_WRITE_SITES ≠ [] ∧
+    (Gen.GITIGNORE_WRITE_SITES.any fun s => s.file == "file/src/common/gitignore.rs") = true := by decide
+
+/-- what the theorem rules out — NOT the code: read the file, build the same text, write it back with
+    `fs::write`.  A complete write gives the same bytes as the append; a write that stops after 5 bytes
+    leaves a file that has lost the user's line and the line of an earlier command -/
+example :
+    let old := "*.log\n/first.bin\n".toList
+    let payload := old ++ appendText old ["/second.bin".toList] "D".toList
+    WriteKind.fsWrite.after old payload = (WriteKind.openOptions true true false false false).after old (appendText old ["/second.bin".toList] "D".toList) ∧
+    WriteKind.fsWrite.after old (payload.take 5) = some "*.log".toList ∧
+    ¬ (old <+: "*.log".toList) ∧
+    WriteKind.fsWrite.after old (payload.take 0) = some [] := by decide
+
 /-! ## the cache is never staged -/
 
 /-- the patterns `xvc init` writes, as git parses them — computed from the generated `GITIGNORE_INITIAL_CONTENT` -/
@@ -535,6 +580,12 @@ open Ign.Git in
 #print axioms C16_track_ignores_independent_of_store
 open Ign.Git in
 #print axioms C16_history_track_reestablishes_ignore
+open Ign.Git in
+#print axioms C16_gitignore_opened_append_only
+open Ign.Git in
+#print axioms C16_faulted_write_keeps_old_bytes
+open Ign.Git in
+#print axioms C16_complete_write_is_model_edit
 open Ign.Git in
 #print axioms C16_whitelisted_counterexample
 open Ign.Git in
